@@ -107,7 +107,9 @@ def main():
     bad = 0
     for m in M:
         prop, name, path, old, new = m[:5]
-        src = open(os.path.join(REPO, path)).read()
+        src = open(os.path.join(REPO, path), newline="").read()
+        if "\r\n" in src:  # keep CRLF files CRLF so that the diff applies
+            old, new = old.replace("\n", "\r\n"), new.replace("\n", "\r\n")
         n = src.count(old)
         if len(m) > 5:
             idx = m[5]
@@ -129,7 +131,7 @@ def main():
             bad += 1
             continue
         diff = "".join(difflib.unified_diff(src.splitlines(True), mutated.splitlines(True), "a/" + path, "b/" + path))
-        open(os.path.join(OUT, "%s__%s.diff" % (prop, name)), "w").write(diff)
+        open(os.path.join(OUT, "%s__%s.diff" % (prop, name)), "w", newline="").write(diff)
     print("wrote", len(M) - bad, "mutants;", bad, "skipped")
     return 1 if bad else 0
 
